@@ -673,7 +673,19 @@ struct SeqRun
         {
             Obs d = read_obs(*D);
             eval("C20");
-            if (d.size != o.size || d.empty != o.empty)
+            if (is_ttl())
+            {
+                // as for the range-driven twin: the instances may hold different numbers of expired,
+                // not yet removed entries (S is looked at more often); every key is compared by the probes
+                if (d.size < (int64_t)live.size() || (tr.has_capacity && d.size > (int64_t)cfg.capacity) || d.empty != (d.size == 0))
+                {
+                    if (fail({"C20"}, "clear.twin_size_bounds",
+                             "size() of the freshly constructed instance (" + std::to_string(d.size) + ") outside [live, capacity]", true))
+                        return;
+                    D.reset();
+                }
+            }
+            else if (d.size != o.size || d.empty != o.empty)
             {
                 if (fail({"C20"}, "clear.twin_size",
                          "size() differs between cleared (" + std::to_string(o.size) + ") and fresh (" +
@@ -1450,7 +1462,7 @@ struct SeqRun
         return out;
     }
 
-    void apply_to_D(const Op& op, const Result& sres)
+    void apply_to_D(const Op& op, const Result& sres, bool exempt = false)
     {
         if (!D)
             return;
@@ -1459,7 +1471,15 @@ struct SeqRun
         note(d);
         eval("C20");
         nt("C20");
-        if (d != sres)
+        if (d != sres && (exempt || (is_ttl() && op.kind == OpKind::clean)))
+        {
+            // S gets lookups (the probes inside a call's analysis) that D does not: expired entries may be
+            // reaped at different moments, which is allowed to show in exactly these results
+            st.bump("open.c20_exempt_result_differs");
+            if (op.kind != OpKind::clean && op.kind != OpKind::erase)
+                D.reset();
+        }
+        else if (d != sres)
         {
             if (!fail({"C20"}, "clear.twin_result",
                       std::string(op_name(op.kind)) + " returned " + result_str(sres) + " on the cleared instance but " +
@@ -1543,7 +1563,7 @@ struct SeqRun
 
         // ---- prediction for the bare twin, on the state before the op
         const bool skip_on_B = B && stp.splice && predict_noeffect(op);
-        const auto exempt    = b_exempt(op);
+        auto       exempt    = b_exempt(op);
 
         // ---- the op on S (singles), R (as written)
         twins_in_sync = false;
@@ -1555,10 +1575,19 @@ struct SeqRun
             int64_t         count = 0;
             for (auto& s : singles)
             {
+                // S is probed between the singles and the other instances are not: where lookups reap expired
+                // entries more eagerly than today, an update-only insert or an erase addressed to a key that
+                // expired (possibly earlier in this very range) may legitimately come out differently there
+                const auto sx = b_exempt(s);
+                if (sx.first)
+                {
+                    exempt.first = true;
+                    exempt.second |= sx.second;
+                }
                 Result r = single_on_S(s);
                 if (failed())
                     return;
-                apply_to_D(s, r);
+                apply_to_D(s, r, sx.first);
                 if (failed())
                     return;
                 if (op.kind == OpKind::insert_range || op.kind == OpKind::erase_range)
@@ -1582,7 +1611,12 @@ struct SeqRun
                 st.bump(std::string("probe.range.") + op_name(op.kind));
                 if (singles.size() > cfg.capacity && op.kind == OpKind::insert_range)
                     st.bump("probe.range_longer_than_capacity");
-                if (rr != cat)
+                if (rr != cat && exempt.first)
+                {
+                    st.bump("open.c18_exempt_result_differs");
+                    R.reset(); // the logical states may have diverged legitimately
+                }
+                else if (rr != cat)
                 {
                     // insert_range's count is also what C09 speaks about ("reports exactly the writes that took effect")
                     std::vector<const char*> pr = {"C18"};
@@ -1615,7 +1649,7 @@ struct SeqRun
             Result r = single_on_S(op);
             if (failed())
                 return;
-            apply_to_D(op, r);
+            apply_to_D(op, r, exempt.first);
             if (failed())
                 return;
             if (R)
@@ -1624,7 +1658,13 @@ struct SeqRun
                 Result rr = R->exec(op);
                 note(rr);
                 eval("C18");
-                if (rr != r && !(is_ttl() && op.kind == OpKind::clean))
+                if (rr != r && exempt.first)
+                {
+                    st.bump("open.c18_exempt_result_differs");
+                    if (exempt.second)
+                        R.reset();
+                }
+                else if (rr != r && !(is_ttl() && op.kind == OpKind::clean))
                 {
                     if (fail({"C18"}, "range.later_result",
                              std::string(op_name(op.kind)) + " returned " + result_str(rr) +
